@@ -1,14 +1,13 @@
 #!/bin/bash
-# evaluates every /tmp/seed_out/<ID>/<a|b> with seedeval.sh, 4 at a time (separate cargo target dirs)
-cd /tmp/seed_out
-ls -d C*/[ab] | sort > /tmp/seed_list.txt
-run() { d=$1; slot=$2; CARGO_TARGET_DIR=/tmp/seedeval-target-$slot /verif/selftest/seedeval.sh /tmp/seed_out/$d > /tmp/seed_out/$d/EVAL.log 2>&1; }
+# evaluates every /verif/seeded/<name> with seedeval.sh, 4 at a time (separate cargo target dirs), then writes meta.json
+cd /verif/seeded
+ls -d */ | sed 's|/||' | sort > /tmp/seed_list.txt
 n=0
 while read d; do
   slot=$((n % 4)); n=$((n+1))
-  run $d $slot &
+  ( CARGO_TARGET_DIR=/tmp/seedeval-target-$slot /verif/selftest/seedeval.sh /verif/seeded/$d > /tmp/seedeval.$d.log 2>&1 ) &
   if [ $((n % 4)) -eq 0 ]; then wait; fi
 done < /tmp/seed_list.txt
 wait
-for d in $(cat /tmp/seed_list.txt); do echo "== $d"; cat /tmp/seed_out/$d/EVAL.txt | grep -E "^demo|^existing|^checks"; done > /tmp/seed_out/SUMMARY.txt
+python3 /verif/selftest/seed_meta.py
 echo done
